@@ -4,6 +4,7 @@
     in this table and that every writer the model relies on is still there. *)
 From Coq Require Import String List Bool.
 Import ListNotations.
+Require Import Nib.C11.Model.
 Open Scope string_scope.
 
 Inductive handler := HPrevote | HVote | HDelegate | HEditParams | HEndBlock | HGenesis.
@@ -59,3 +60,65 @@ Definition writers_ok (ws : list (string * string * string * string)) : bool :=
 
 Definition calls_ok (cs : list (string * string * string)) : bool :=
   forallb call_known cs && forallb (call_present cs) call_table.
+
+(* ------------------------------------------------------------------ the reveal-hash preimage *)
+
+(** What the generated facts must say for the model's preimage parameter to be the identity
+    (Model.v [pi_exact]): inside types.GetAggregateVoteHash the hashed byte string is
+    <parameter 0> ":" <parameter 1> ":" <parameter 2>.String() with NOTHING applied to parameters
+    0 and 1, and every on-chain caller passes the Salt and ExchangeRates fields of the message as
+    they are.  (kind, text, functions applied outermost first) *)
+Definition preimage_expected : list (string * string * list string) := [
+  ("arg", "param:0", []);
+  ("lit", ":", []);
+  ("arg", "param:1", []);
+  ("lit", ":", []);
+  ("arg", "param:2", [".String"])
+].
+
+Fixpoint strs_eqb (a b : list string) : bool :=
+  match a, b with
+  | [], [] => true
+  | x :: a', y :: b' => String.eqb x y && strs_eqb a' b'
+  | _, _ => false
+  end.
+
+Fixpoint parts_eqb (a b : list (string * string * list string)) : bool :=
+  match a, b with
+  | [], [] => true
+  | (k, t, f) :: a', (k', t', f') :: b' =>
+      String.eqb k k' && String.eqb t t' && strs_eqb f f' && parts_eqb a' b'
+  | _, _ => false
+  end.
+
+(** the functions applied to the salt / the rate string between the message field and the hash,
+    over the helper and all its on-chain callers (the variant a changed tree would need as
+    non-identity [pi_salt] / [pi_rates]) *)
+Definition helper_transforms (i : string) (ps : list (string * string * list string)) : list string :=
+  flat_map (fun p => let '(k, t, f) := p in
+                     if String.eqb k "arg" && String.eqb t i then f else []) ps.
+
+Definition caller_transforms (i : nat) (cs : list (string * string * list (string * list string))) : list string :=
+  flat_map (fun c => match nth_error (snd c) i with Some (_, f) => f | None => ["<missing argument>"] end) cs.
+
+Definition salt_transforms ps cs : list string := (caller_transforms 0 cs ++ helper_transforms "param:0" ps)%list.
+Definition rates_transforms ps cs : list string := (caller_transforms 1 cs ++ helper_transforms "param:1" ps)%list.
+
+Definition hash_call_ok (c : string * string * list (string * list string)) : bool :=
+  match snd c with
+  | [(s0, t0); (s1, t1); _] =>
+      String.eqb s0 "field:Salt" && strs_eqb t0 [] &&
+      String.eqb s1 "field:ExchangeRates" && strs_eqb t1 []
+  | _ => false
+  end.
+
+(** the variant flag: true = the tree hashes exactly the revealed byte strings *)
+Definition preimage_exact (ps : list (string * string * list string)) (sink : list string)
+           (cs : list (string * string * list (string * list string))) : bool :=
+  parts_eqb ps preimage_expected && strs_eqb sink ["[]byte"] &&
+  negb (match cs with [] => true | _ => false end) && forallb hash_call_ok cs.
+
+(** the model's preimage parameter for a tree with that flag: the identity when the flag is set,
+    otherwise whatever normalisation [variant] the tree applies *)
+Definition pi_of_facts (exact : bool) (variant : preimage) : preimage :=
+  if exact then pi_exact else variant.
